@@ -79,6 +79,12 @@ class _read_byte:
         "tape(state) == old(tape(state))",
         'flen(state["_file"]) == old(flen(state["_file"]))',
         'has(state, "_recorded_bytes") == old(has(state, "_recorded_bytes"))',
+        # while a recording runs (record_bitstream_start; C01 'byte-identical repeated sequence headers') the used-up byte - whatever its
+        # value - is appended to it and what was recorded before stays
+        'implies(has(state, "_recorded_bytes"), length(state["_recorded_bytes"]) == old(length(state["_recorded_bytes"])) + 1)',
+        'implies(has(state, "_recorded_bytes"), content(state["_recorded_bytes"])[old(length(state["_recorded_bytes"]))] == old(state["current_byte"]))',
+        'implies(has(state, "_recorded_bytes"), forall(0, old(length(state["_recorded_bytes"])), lambda j: content(state["_recorded_bytes"])[j] == old(content(state["_recorded_bytes"]))[j], '
+        'trigger=lambda j: content(state["_recorded_bytes"])[j]))',
     ]
     raises = {}
 
